@@ -110,6 +110,7 @@ class FnCtx:
 
     e_ExprWithCleanups = e_CXXBindTemporaryExpr = e_ConstantExpr = e_ParenExpr = e_passthrough
     e_SubstNonTypeTemplateParmExpr = e_passthrough
+    e_CXXRewrittenBinaryOperator = e_passthrough      # C++20 rewritten a != b: clang stores the semantic form !(a == b)
 
     def e_ParenExpr(self, n):
         return '(%s)' % self.ex(kids(n)[0])
@@ -214,6 +215,15 @@ class FnCtx:
             else:
                 b = self.materialize(base)
             s = '%s.%s' % (b, name)
+        # ownership discipline (DESIGN.md 4.4): every access to a declared shared field is an obligation
+        fi = self.lw.fields.get(mid)
+        if fi is not None:
+            key = '%s.%s' % (fi[0].cname, fi[1])
+            g = self.lw.cfg.get('guarded', {})
+            if key in g:
+                kind = 'W' if getattr(self, 'write_ctx', False) else 'R'
+                self.lw.access_sites.append((self.f.cname, key, kind, self.cur_line if hasattr(self, 'cur_line') else None))
+                s = '(*(verif_access(%s, ACC_%s, %s), &(%s)))' % (g[key], kind, b if n.get('isArrow') else self.addr_of(b), s)
         # reference-typed field -> stored as pointer
         ft = self.field_type(mid, n)
         if ft is not None and ft.is_ref():
@@ -243,7 +253,13 @@ class FnCtx:
             return self.addr(x)
         if op == '*':
             return self.deref(self.ex(x))
-        s = self.ex(x)
+        if op in ('++', '--'):
+            old = getattr(self, 'write_ctx', False)
+            self.write_ctx = True
+            s = self.ex(x)
+            self.write_ctx = old
+        else:
+            s = self.ex(x)
         if op in ('++', '--'):
             return '(%s%s)' % (s, op) if n.get('isPostfix') else '(%s%s)' % (op, s)
         if op in ('-', '+', '!', '~'):
@@ -257,6 +273,12 @@ class FnCtx:
         a, b = kids(n)
         if op in ('.*', '->*'):
             self.err(n, 'pointer to member')
+        if op.endswith('=') and op not in ('==', '!=', '<=', '>='):
+            old = getattr(self, 'write_ctx', False)
+            self.write_ctx = True
+            sa = self.ex(a)
+            self.write_ctx = old
+            return '(%s %s %s)' % (sa, op, self.ex(b))
         if op in ('&&', '||', ','):
             # temporaries created in the right operand would be hoisted out of the short circuit
             pre0 = len(self.pre) if self.pre is not None else 0
@@ -338,12 +360,12 @@ class FnCtx:
             if is_glvalue(x) and not self.lw.ty(x).kind == 'ptr':
                 s = self.ex(x)
                 for p in path:
-                    s = '%s.__base_%s' % (s, sanitize(p['name']))
+                    s = '%s.__base_%s' % (s, sanitize(p['name'].split('::')[-1]))
                 return s
             s = self.ex(x)
             inner = '(*%s)' % s
             for p in path:
-                inner = '%s.__base_%s' % (inner, sanitize(p['name']))
+                inner = '%s.__base_%s' % (inner, sanitize(p['name'].split('::')[-1]))
             return '(%s ? &%s : ((%s)0))' % (s, inner, self.lw.ctype(t)) if False else '(&%s)' % inner
         if ck == 'BaseToDerived':
             # base is the first member, so the address is the same
@@ -628,10 +650,13 @@ class FnCtx:
             base = kids(me)[0]
             mid = me.get('referencedMemberDecl')
             f = self.lw.funcs.get(mid)
+            oldw = getattr(self, 'write_ctx', False)
+            self.write_ctx = me.get('name') in self.lw.cfg.get('mutating_methods', [])
             if me.get('isArrow'):
                 obj = self.ex(base)
             else:
                 obj = self.addr(base) if is_glvalue(base) else '&' + self.materialize(base)
+            self.write_ctx = oldw
             bt = self.lw.ty(base)
             if bt.kind == 'ptr':
                 bt = bt.to
@@ -754,5 +779,5 @@ class FnCtx:
                 self.pre.append('%s = %s;' % (self.lw.ctype(t, tmp), p))
                 self.pre.append('if (%s) { %s * __d = %s; %s; X_operator_delete(__d); }' % (tmp, self.lw.ctype(et), tmp, d))
                 return '((void)0)'
-            return '%s__delete(%s)' % (sanitize(et.name), p)
+            return '%s__delete(%s)' % (self.lw.te.record_cname(et.name), p)
         return 'X_operator_delete(%s)' % p
